@@ -187,7 +187,7 @@ def accessor(r, t, other):
         t.to_tsv(header_key='no_such_category', header_value='x')
     elif k == 'tsv-header-present':
         md = t.metadata(axis='observation')
-        if md is not None:
+        if md is not None and md[0]:
             key = sorted(md[0], key=str)[0]
             t.to_tsv(header_key=key, header_value=str(key),
                      metadata_formatter=str)
@@ -278,7 +278,8 @@ def derived_vs_rebuilt(ctx, r, spec, base, desc):
     Table = ctx.biom.Table
     D = spec.D
     cand = ['transform-zero', 'pa', 'filter', 'sort', 'merge-cancel',
-            'negate-obs', 'rename', 'add-metadata']
+            'negate-obs', 'rename', 'add-metadata', 'del-metadata-key',
+            'del-metadata-key', 'del-metadata-all']
     if D.size and np.all(D >= 0) and np.all(D == np.floor(D)) and \
             D.max() < 1e6 and D.sum() > 0:
         cand += ['subsample', 'subsample', 'subsample-replace']
@@ -286,6 +287,12 @@ def derived_vs_rebuilt(ctx, r, spec, base, desc):
     t = base.copy()
     # questions asked before the change must not colour the answers after it
     asked = [accessor(r, t, base) for _ in range(r.randint(0, 3))]
+    if r.random() < .35:
+        # ... nor must a full set of exports taken before it
+        str(t)
+        t.to_tsv()
+        t.to_json('before')
+        asked.append('all-exports')
     try:
         if how == 'negate-obs':
             t.transform(lambda v, i, m: -v, axis='observation')
@@ -296,6 +303,18 @@ def derived_vs_rebuilt(ctx, r, spec, base, desc):
             ax = r.choice(['sample', 'observation'])
             t.add_metadata({i: {'added': k} for k, i in
                             enumerate(t.ids(axis=ax))}, axis=ax)
+        elif how == 'del-metadata-key':
+            # one category goes (on one axis or on both), the others stay
+            ax = r.choice(['sample', 'observation', 'whole'])
+            keys = set()
+            for a in (('sample', 'observation') if ax == 'whole' else (ax,)):
+                for m in (t.metadata(axis=a) or ()):
+                    keys.update(m or ())
+            if not keys:
+                return
+            t.del_metadata(keys=[r.choice(sorted(keys, key=str))], axis=ax)
+        elif how == 'del-metadata-all':
+            t.del_metadata(axis=r.choice(['sample', 'observation', 'whole']))
         elif how == 'subsample':
             tot = sorted(set(D.sum(axis=0).tolist()))
             n = max(1, int(r.choice(tot) // 2))
